@@ -725,7 +725,12 @@ def exec_for_invariant(engine, ctx, st: ast.For, env: Env, it, inv):
                         o.fields[fn] = ctx.fresh_kind("loop.%s.%s" % (vn, fn), kind)
     # local lists / dicts that the body grows in place: their contents are not tracked across a symbolic loop
     for vn in locally_mutated_containers(st.body):
-        if vn not in kinds and isinstance(env.vars.get(vn), (PyList, PyDict)):
+        if vn not in kinds and isinstance(env.vars.get(vn), PyDict):
+            # still a dict, but its contents are no longer tracked (reads are engine limits)
+            nd = PyDict()
+            nd.opaque = True
+            env.vars[vn] = nd
+        elif vn not in kinds and isinstance(env.vars.get(vn), PyList):
             env.vars[vn] = V.Opaque("container built in a loop over a symbolic domain")
     if has_yield:
         ctx.ysym.havoc()
@@ -906,6 +911,24 @@ def build_comprehension(engine, ctx, e, gen, it, env, kind):
 
         run_under_binding(engine, ctx, b, body)
         return result
+    if kind == "list" and isinstance(it, V.RangeV) and not gen.ifs and it.step == 1:
+        # [e for _ in range(lo, hi)] with e independent of the index: hi - lo copies of e
+        holder = {}
+        n_taken = len(ctx.taken)
+
+        def body_r():
+            cenv = Env(env.module, env, env.finfo)
+            engine.assign(ctx, gen.target, b.value, cenv)
+            holder["v"] = engine.eval(ctx, e.elt, cenv)
+
+        body_r()
+        v = holder["v"]
+        kind_v = kind_of_value(v)
+        term = kind_v.unwrap(v)
+        if any(_mentions(term, c) for c in b.consts):
+            raise EngineLimit("list comprehension over a symbolic range whose element depends on the index")
+        lo_t, hi_t = V.Int.unwrap(it.lo), V.Int.unwrap(it.hi)
+        return SymSeq(z3.K(z3.IntSort(), term), z3.If(hi_t > lo_t, hi_t - lo_t, 0), kind_v, fresh=True)
     if kind == "list":
         if not b.ordered or not isinstance(it, SymSeq):
             raise EngineLimit("list comprehension over an unordered symbolic domain")
@@ -969,6 +992,10 @@ def kind_of_value(v):
         return V.Str
     if isinstance(v, Obj):
         return V.ObjOf(v.cls.qualname, v.exact)
+    if type(v).__name__ == "DynV":
+        from .dynmodel import Dyn
+
+        return Dyn
     raise EngineLimit("no kind for sequence element %r" % (v,))
 
 
